@@ -5,6 +5,7 @@ import (
 	"fmt"
 
 	"github.com/vektah/gqlparser/v2/ast"
+	"github.com/vektah/gqlparser/v2/verifhook"
 )
 
 type Events struct {
@@ -221,6 +222,8 @@ func (w *Walker) walkSelectionSet(parentDef *ast.Definition, it ast.SelectionSet
 }
 
 func (w *Walker) walkSelection(parentDef *ast.Definition, it ast.Selection) {
+	verifhook.Gate()
+	verifhook.Step(verifhook.SiteWalkSelection)
 	switch it := it.(type) {
 	case *ast.Field:
 		var def *ast.FieldDefinition
